@@ -116,7 +116,15 @@ class Synth:
             solve(aut, self.rabin)
             for v in env_names:
                 aut.varlist['sys'].remove(v)
-            aut.varlist['env'].extend(env_names)
+            # ... then with the players' variables exchanged (the lists
+            # keep their lengths when both own equally many) ...
+            sys_names = list(aut.varlist['sys'])
+            aut.varlist['sys'][:] = env_names
+            aut.varlist['env'][:] = sys_names
+            if env_names and sys_names:
+                solve(aut, self.rabin)
+            aut.varlist['sys'][:] = sys_names
+            aut.varlist['env'][:] = env_names
             # ... and once with each mode flag flipped on its own
             aut.plus_one = not aut.plus_one
             solve(aut, self.rabin)
